@@ -25,6 +25,16 @@ def apply_variant(v, root=None):
         if src is None:
             with open(os.path.join(root, rel), encoding='utf-8') as f:
                 src = f.read()
+        if ed.get('nth') is not None:
+            # replace only the nth occurrence (0-based)
+            pos = -1
+            for _ in range(ed['nth'] + 1):
+                pos = src.find(ed['old'], pos + 1)
+                if pos < 0:
+                    return None
+            src = src[:pos] + ed['new'] + src[pos + len(ed['old']):]
+            overlay[rel] = src
+            continue
         n = src.count(ed['old'])
         if n != ed.get('count', 1):
             return None
